@@ -438,7 +438,7 @@ func (ev *Env) tryIdent(name string) (T, bool) {
 	if a, ok := ev.varAddrs[name]; ok && ev.fr != nil {
 		return ev.fr.load(a, ev.st), true
 	}
-	if ev.fr != nil && !ev.calleeScope {
+	if ev.fr != nil && ev.fr.fn != nil && !ev.calleeScope {
 		if v, ok := ev.fr.lookupLocal(name, ev); ok {
 			return v, true
 		}
@@ -607,6 +607,27 @@ func (fr *frame) lookupLocal(name string, ev *Env) (T, bool) {
 
 func (ev *Env) call(c *ECall) T {
 	vc := ev.vc
+	// call through a function value (variable, slice element, field) : pure application
+	if fv, ok := ev.tryFuncValue(c.Fun); ok {
+		sig := unalias(fv.GT).Underlying().(*types.Signature)
+		var args []T
+		for i, a := range c.Args {
+			t := ev.eval(a)
+			if i < sig.Params().Len() {
+				pt := sig.Params().At(i).Type()
+				if isUntypedNum(t) && isFloat(pt) && t.Sort == "Int" {
+					t = T{toRealLit(t.S), "Real", pt}
+				}
+				t.GT = pt
+			}
+			args = append(args, t)
+		}
+		res := vc.applyFuncValue(fv, sig, args)
+		if len(res) != 1 {
+			stale("function value used in a specification must return exactly one value")
+		}
+		return res[0]
+	}
 	// builtin spec functions
 	if id, ok := c.Fun.(*EIdent); ok {
 		if r, ok := ev.builtinSpec(id.Name, c.Args); ok {
@@ -673,6 +694,37 @@ func (ev *Env) call(c *ECall) T {
 	}
 	stale("unsupported call expression")
 	return T{}
+}
+
+func (ev *Env) tryFuncValue(e Expr) (t T, ok bool) {
+	switch x := e.(type) {
+	case *EIdent:
+		v, found := ev.tryIdent(x.Name)
+		if !found || v.GT == nil {
+			return T{}, false
+		}
+		if _, isSig := unalias(v.GT).Underlying().(*types.Signature); isSig {
+			return v, true
+		}
+		return T{}, false
+	case *EIndex:
+		defer func() {
+			if r := recover(); r != nil {
+				if _, isStale := r.(staleErr); isStale {
+					ok = false
+					return
+				}
+				panic(r)
+			}
+		}()
+		v := ev.eval(x)
+		if v.GT != nil {
+			if _, isSig := unalias(v.GT).Underlying().(*types.Signature); isSig {
+				return v, true
+			}
+		}
+	}
+	return T{}, false
 }
 
 func pickInstance(fns []*ssa.Function, args []T) *ssa.Function {
@@ -1003,6 +1055,10 @@ func (ev *Env) builtinSpec(name string, argEs []Expr) (T, bool) {
 		vc.regHeap("G_visits", "(Array Int Int)")
 		a := arg(0)
 		return T{fmt.Sprintf("(select %s %s)", vc.heapGet(ev.st, "G_visits"), a.S), "Int", intT}, true
+	case "forked":
+		vc.regHeap("G_forked", "(Array Int Int)")
+		a := arg(0)
+		return T{fmt.Sprintf("(select %s %s)", vc.heapGet(ev.st, "G_forked"), a.S), "Int", intT}, true
 	case "seen":
 		// seen(k): ghost set of the innermost map range at this loop header
 		a := arg(0)
